@@ -236,6 +236,7 @@ func (in *Interp) runPath(prefix []uint64) {
 	in.steps = 0
 	in.blocks = 0
 	in.allocBytes = 0
+	in.loopBound = 0
 	in.elemOrigin = nil
 	if in.sol != nil {
 		in.sol.Reset()
